@@ -393,6 +393,8 @@ func makeReader(rc *rcase) (gozxing.Reader, map[gozxing.DecodeHintType]interface
 			return oned.NewCode39ReaderWithFlags(false, true), nil
 		}
 		return sd.reader(), nil
+	case "own+gs1": // the symbology's own reader told to assume GS1 (changes how FNC1 is reported - and nothing else)
+		return sd.reader(), map[gozxing.DecodeHintType]interface{}{gozxing.DecodeHintType_ASSUME_GS1: true}
 	case "ext":
 		return oned.NewCode39ReaderWithFlags(false, true), nil
 	case "ean13":
